@@ -462,10 +462,36 @@ let run_monitor toks =
      | (Monitor.Reject w, i) -> Stdlib.Printf.sprintf "rejected rule=%s at-device-event=%s" (string_of_n w) (string_of_n i))
   | _ -> failwith "monitor: missing trace"
 
+(* ---------- cache: ClockCache public API ---------- *)
+let run_cache toks =
+  match split_ops toks with
+  | [] -> failwith "cache: empty"
+  | head :: ops ->
+    let c = ref (Cache.cache_new (n_of_string (opt "E" head "0"))) in
+    let outs = ref [] in
+    Stdlib.List.iter (fun o ->
+        match o with
+        | [] -> ()
+        | name :: args ->
+          let res = match name with
+            | "get" ->
+              let (r, c') = Cache.cget !c (gen_bytes (opt "k" args "-")) in
+              c := c';
+              (match r with Some v -> Stdlib.Printf.sprintf "hit:%016Lx" (fnv_bytes v) | None -> "miss")
+            | "ins" -> c := Cache.cinsert !c (gen_bytes (opt "k" args "-")) (gen_bytes (opt "v" args "-")); "ok"
+            | "rm" -> c := Cache.cremove !c (gen_bytes (opt "k" args "-")); "ok"
+            | "evict" -> c := Cache.cevict !c; "ok"
+            | "clear" -> c := Cache.cclear !c; "ok"
+            | "adj" -> c := Cache.cadjust !c (n_of_string (opt "h" args "0")) (n_of_string (opt "l" args "0")); "ok"
+            | other -> failwith ("cache: unknown op " ^ other) in
+          outs := Stdlib.Printf.sprintf "%s m=%s ev=%s hw=%s lw=%s" res (string_of_n !c.Cache.cmem)
+              (string_of_n !c.Cache.evictions) (string_of_n !c.Cache.high) (string_of_n !c.Cache.low) :: !outs) ops;
+    Stdlib.String.concat " | " (Stdlib.List.rev !outs)
+
 let run_note _ = "note"
 
 let handlers : (string * (string list -> string)) list ref =
-  ref [ ("fs", run_fs); ("open", run_open); ("note", run_note); ("codec", run_codec); ("readdev", run_readdev); ("lww", run_lww); ("monitor", run_monitor) ]
+  ref [ ("fs", run_fs); ("open", run_open); ("note", run_note); ("codec", run_codec); ("readdev", run_readdev); ("lww", run_lww); ("monitor", run_monitor); ("cache", run_cache) ]
 
 
 let () =
